@@ -30,6 +30,9 @@ CHECKS = {
  "C06": dict(engine="relay", tech="TLA+ spec (Relay) model-checked by TLC over all interleavings (MC_Relay); executions of the real Adaptation recorded through verif hook points and validated by TLC (Trace_Relay)",
    text="MC_Relay explores every interleaving of concurrent callers, the accept loop, a failing plugin, handler errors and an unsolicited update (invariants Sorted, OncePerRequest, CommonOrder, Delivered, VisitedOK; liveness AllDone/RegsEnd). Recorded concurrent runs of the real code (random indices incl. duplicates, random and - thorough - all 8192 masks, all 13 request kinds, plugins joining and leaving) must be behaviours of Relay: each delivery must be the next subscribed live plugin of the order fixed at lock time, for the request holding the lock; every caller's result must carry exactly its own request's tags.",
    ref="5/C06", note="Trusted base: TLC; log order = append order under one recorder mutex with the before/after logging discipline (DESIGN R2); races are sampled (seeded perturbation at hook points), interleaving exhaustiveness comes from the TLC model."),
+ "C07": dict(engine="relay", tech="TLA+ spec (Relay: PluginClosed at any moment, Veto) model-checked by TLC; TLC-enumerated fault placements (Gen_Fault) replayed with a byte-cutting raw plugin peer; recorded runs validated by TLC (Trace_Relay)",
+   text="MC_Relay explores a plugin failing at every moment relative to every other step and handler errors (Delivered, VisitedOK, liveness AllDone = no deadlock). Gen_Fault enumerates plugin position x request kind x fault (close before/during/after, cut after k bytes of request or response, hang past the timeout, context-blocked hang, garbage on the wire, handler error); each is realised on the real Adaptation with a raw mux+ttRPC plugin peer whose connection is cut at exact byte offsets; the validated trace must show: request returns (watchdog 20xT), latency <= n x T + 2 s, survivors' contributions intact, dropped plugin never reached again, handler error fails the request with that error and no later plugin invoked.",
+   ref="5/C07", note="Trusted base as C06; a plugin dropped exactly while answering may or may not have contributed / vetoed (both accepted); a cut is a close of the plugin's end of the socket."),
  "C08": dict(engine="relay", tech="TLA+ spec (Relay sync lock) model-checked by TLC incl. a negative control; recorded executions with racing registrations and creations validated by TLC",
    text="ExactlyOnce and HeldBlocksSync are model-checked over all interleavings (and a mutated model without sync blocks must violate ExactlyOnce - vacuity guard). In recorded runs of the real code every sync.exclusive must find no sync block held, every block.acquired no registration in progress, every store.add / activation must satisfy snapshot XOR creation-relayed for each live active subscribed plugin, and registrations must complete once blocks are released.",
    ref="5/C08", note="Assumes the runtime performs creation and bookkeeping inside one sync block (the harness' runtime does). Same trusted base as C06."),
@@ -79,7 +82,7 @@ m = {
  "engines": [
    {"name": "oci", "path": "/verif/lib/oci.py", "serves_properties": ["C13"],
     "kind_free_text": "TLC (tla/Gen_Oci) + replay on pkg/runtime-tools/generate (harness/ocidrv) + TLC trace validation (tla/Trace_Oci)"},
-   {"name": "relay", "path": "/verif/lib/relay.py", "serves_properties": ["C06", "C08", "C19"],
+   {"name": "relay", "path": "/verif/lib/relay.py", "serves_properties": ["C06", "C07", "C08", "C19"],
     "kind_free_text": "TLC model checking (tla/MC_Relay over tla/Relay), recording driver (harness/relaydrv, hooks pkg/vhook), TLC trace validation (tla/Trace_Relay)"},
    {"name": "adjust", "path": "/verif/lib/adjust.py", "serves_properties": ["C01", "C02", "C03", "C04", "C05"],
     "kind_free_text": "TLC model checking + scenario emission (tla/Gen_Adjust), replay on the real code (harness/adjdrv), TLC trace validation (tla/Trace_Adjust)"},
